@@ -1,5 +1,6 @@
 import Lean.Data.Json
 import MindsVerif.Model.Route
+import MindsVerif.Model.RouteNorm
 /-! Line protocol driver for the routing model (C10, C11).  One JSON object per input line, one JSON
 object per output line.  Names are arrays of code points.
 
@@ -8,6 +9,10 @@ object per output line.  Names are arrays of code points.
   {"op":"plan","cat":CAT,"ctes":[NAME…],"names":[NAME…],"node":NODE}        → get_query_info + check_single_integration + stripped identifiers
   {"op":"strip","db":NAME,"par":"n|j|s","slot":"t|g|a","node":NODE} → identifiers after prepare_integration_select
   {"op":"sem","db":NAME,"sch":[[NAME,[NAME…]]…],"sel":SEL}  → resolution of every column reference, federated and stripped/local
+  {"op":"norm","tbl":[[c,[c…]]…],"cat":CAT,"ctes":[NAME…],"names":[NAME…],"node":NODE}
+      → the generic model (Model/RouteNorm.lean) with the character table as THE normaliser of every site: catalog,
+        get_query_info, both check_single_integration sites, identifiers after prepare_integration_select
+  {"op":"pathstr","name":NAME}                              → path_str_to_parts on a string without back-quotes
 
   CAT  = {"ints":null|[["n",NAME]|["d",NAME,NAME,NAME|null]…],"pns":null|NAME,"pm":null|["list"|"legacy",[[NAME,NAME|null]…]],"dns":null|NAME}
   NODE = ["I",[NAME…],star,null|[NAME…]] | ["L"] | ["N"] | ["F",udf,[KID…]] | ["S","n|j|s",[KID…]] | ["P",[KID…]]
@@ -186,6 +191,8 @@ def handle (line : String) : Except String Json := do
       ("items", .arr (items.map jItem).toArray), ("info", jInfo false), ("infoN", jInfo true),
       ("single", jOptName dec), ("singleN", jOptName decN),
       ("singleJoin", jOptName (checkSingleJoin false c ctes items)),
+      ("singleJoinN", jOptName (checkSingleJoin true c ctes items)),
+      ("identsJoinNA", jIdents (checkSingleJoin true c ctes items) names),
       ("idents", jIdents dec []), ("identsA", jIdents dec names),
       ("identsN", jIdents decN []), ("identsNA", jIdents decN names),
       ("skipLeafOnly", skipLeafOnly q), ("allTables", .arr ((allTables .arg q).map jNames).toArray)]
@@ -213,6 +220,36 @@ def handle (line : String) : Except String Json := do
       ("ok", okSel db [] s),
       ("localA", .arr ((resolveAll false db sch [] (stripSel db (aliasesOf s) s)).map jResC).toArray),
       ("okA", okSel db (aliasesOf s) s), ("names", jNames (aliasesOf s))]
+  else if op == "norm" then
+    let tbl ← (← (← j.getObjVal? "tbl").getArr?).toList.mapM fun e => do
+      match (← e.getArr?).toList with
+      | [c, l] => pure ((← c.getNat?), (← (← l.getArr?).toList.mapM (·.getNat?)))
+      | _ => throw "tbl"
+    let n : Norm := lowerByChar tbl
+    let c := mkCatalogG n (← getCat (← j.getObjVal? "cat"))
+    let ctes ← getNames (← j.getObjVal? "ctes")
+    let names ← getNames (← j.getObjVal? "names")
+    let q ← getNode (← j.getObjVal? "node")
+    let items := visit .arg q
+    let jInfo := match queryInfoG n c ctes items with
+      | none => Json.null
+      | some qi => Json.mkObj [("mdb", qi.mdbEntities), ("ints", jNames qi.integrations),
+          ("preds", qi.predictors), ("udf", qi.userFunctions)]
+    let jIdents := fun (dec : Option Name) => match dec with
+      | none => Json.null
+      | some i => Json.arr ((allIdents (stripG n i names .noFrom .arg q)).map jIdent).toArray
+    let dec := checkSingleG n c ctes items
+    let decJ := checkSingleJoinG n c ctes items
+    return Json.mkObj [
+      ("integrations", .arr (c.integrations.map fun (k, v) => Json.arr #[jName k, jOptName v]).toArray),
+      ("projects", jNames c.projects),
+      ("predictors", .arr (c.predictors.map fun (k, v) => Json.arr #[jName k, jOptName v.project]).toArray),
+      ("dns", jOptName c.defaultNs),
+      ("items", .arr (items.map jItem).toArray), ("info", jInfo),
+      ("single", jOptName dec), ("singleJoin", jOptName decJ),
+      ("idents", jIdents dec), ("identsJoin", jIdents decJ)]
+  else if op == "pathstr" then
+    return Json.mkObj [("parts", jNames (pathParts (← getName (← j.getObjVal? "name"))))]
   else throw "op"
 
 partial def loop (h : IO.FS.Stream) (out : IO.FS.Stream) : IO Unit := do
